@@ -78,6 +78,14 @@ impl Minimiser<'_> {
             if p != best && self.fails(&p) {
                 best = p;
             }
+            // and no extra command-line arguments at all
+            let mut p = best.clone();
+            for e in &mut p.epochs {
+                e.argv.clear();
+            }
+            if p != best && self.fails(&p) {
+                best = p;
+            }
         }
         // 1. epochs
         if best.epochs.len() > 1 {
